@@ -23,14 +23,23 @@ func handshakeRulesThroughClientKeyExchange(epoch uint16) []dtlsflight.Handshake
 	}
 }
 
-// handshakeRulesThroughClientFinished returns the handshake transcript pull
-// rules through the client's Finished message.
-func handshakeRulesThroughClientFinished(epoch uint16) []dtlsflight.HandshakeCachePullRule {
+// handshakeRulesThroughClientCertificateVerify returns the handshake transcript
+// pull rules through the client's CertificateVerify message (the transcript
+// covered by the client's Finished).
+func handshakeRulesThroughClientCertificateVerify(epoch uint16) []dtlsflight.HandshakeCachePullRule {
 	return append(
 		handshakeRulesThroughClientKeyExchange(epoch),
 		dtlsflight.HandshakeCachePullRule{
 			Typ: handshake.TypeCertificateVerify, Epoch: epoch, IsClient: true, Optional: false,
 		},
+	)
+}
+
+// handshakeRulesThroughClientFinished returns the handshake transcript pull
+// rules through the client's Finished message.
+func handshakeRulesThroughClientFinished(epoch uint16) []dtlsflight.HandshakeCachePullRule {
+	return append(
+		handshakeRulesThroughClientCertificateVerify(epoch),
 		dtlsflight.HandshakeCachePullRule{
 			Typ: handshake.TypeFinished, Epoch: epoch + 1, IsClient: true, Optional: false,
 		},
